@@ -21,16 +21,26 @@ func printNode returns (err)
     invariant @keys forall p int :: {#coll[p]} 0 <= p && p < len(#coll) ==> #coll[p] in node.Children
   }
 
+// getJump returns the names along a sole-branch chain - but only if the chain ends in a leaf: a non-empty jump
+// means the whole subtree below the node IS that chain, so printing the joined path and skipping the subtree drops
+// nothing (C03). The ghost map jlen records, per node, the length of the jump computed for it.
+ghost jlen fmap[int]int
 func getJump returns (jump)
   props C03 C08
   requires @tree TreeInv() && node in tnodes
   decreases tmax - tdepth[node]
+  modifies ghost(jlen)
+  ensures @recorded jlen[node] == len(jump) && len(jump) >= 0
+  ensures @leaf [C03] len(node.Children) == 0 ==> len(jump) == 1
+  ensures @fork [C03] len(node.Children) > 1 ==> len(jump) == 0
+  ensures @chain [C03] len(node.Children) == 1 ==> (exists k string :: k in node.Children && ((jlen[mapget(node.Children, k)] == 0 ==> len(jump) == 0) && (jlen[mapget(node.Children, k)] > 0 ==> len(jump) == jlen[mapget(node.Children, k)] + 1)))
+  ghost before return 1 { set jlen := store(jlen, node, len(jump)) }
 
 func printNodeCollapsed returns (err)
   props C03 C08 C17
   requires @tree TreeInv() && node in tnodes && typeis(output, "*bufio.Writer") && payload(output) != 0
   decreases tmax - tdepth[node]
-  modifies ghost(bufSticky, sinkFailed, sinkPend, prLen, prSink, prArg, prArgs)
+  modifies ghost(bufSticky, sinkFailed, sinkPend, prLen, prSink, prArg, prArgs, jlen)
   ensures @sink [C17] BufStep(payload(output))
   ensures @reports-loss [C17] err == nil ==> bufSticky[payload(output)] == old(bufSticky[payload(output)])
   loop 1 {
@@ -48,7 +58,7 @@ pred BalSInv(r *balanceSingleReporter) := r != nil && r.output != nil && TreeInv
 func newBalanceReporter returns (r)
   props C03 C08 C17
   requires @tree TreeInv()
-  modifies ghost(bufSink, bufSticky, tnodes, tdepth, tmax, tmapOf)
+  modifies ghost(bufSink, bufSticky, tnodes, tdepth, tmax, tmapOf, jlen)
   ensures @fresh fresh(r) && fresh(r.output) && BalInv(r) && r.db == db
   ensures @nodes-kept forall n *shared.TreeNode :: {n in tnodes} old(n in tnodes) ==> n in tnodes
   ensures @sink [C17] bufSink == store(old(bufSink), r.output, payload(config.Output)) && bufSticky == store(old(bufSticky), r.output, false)
@@ -58,7 +68,7 @@ func (*balanceReporter).Process returns (err)
   props C03 C08 C17
   requires @args ln != nil && BalInv(r)
   modifies heap(shared.TreeNode), maps(string, *shared.TreeNode)
-  modifies ghost(tnodes, tdepth, tmax, tmapOf)
+  modifies ghost(tnodes, tdepth, tmax, tmapOf, jlen)
   ensures @inv BalInv(r) && err == nil && r.output == old(r.output) && r.root == old(r.root)
   ensures @nodes-kept forall n *shared.TreeNode :: {n in tnodes} old(n in tnodes) ==> n in tnodes
   loop 1 {
@@ -76,7 +86,7 @@ func (*balanceReporter).Flush returns (err)
 func newBalanceReporterCollapsed returns (r)
   props C03 C08 C17
   requires @tree TreeInv()
-  modifies ghost(bufSink, bufSticky, tnodes, tdepth, tmax, tmapOf)
+  modifies ghost(bufSink, bufSticky, tnodes, tdepth, tmax, tmapOf, jlen)
   ensures @fresh fresh(r) && fresh(r.output) && BalCInv(r) && r.db == db
   ensures @nodes-kept forall n *shared.TreeNode :: {n in tnodes} old(n in tnodes) ==> n in tnodes
   ensures @sink [C17] bufSink == store(old(bufSink), r.output, payload(config.Output)) && bufSticky == store(old(bufSticky), r.output, false)
@@ -86,7 +96,7 @@ func (*balanceReporterCollapsed).Process returns (err)
   props C03 C08 C17
   requires @args ln != nil && BalCInv(r)
   modifies heap(shared.TreeNode), maps(string, *shared.TreeNode)
-  modifies ghost(tnodes, tdepth, tmax, tmapOf)
+  modifies ghost(tnodes, tdepth, tmax, tmapOf, jlen)
   ensures @inv BalCInv(r) && err == nil && r.output == old(r.output) && r.root == old(r.root)
   ensures @nodes-kept forall n *shared.TreeNode :: {n in tnodes} old(n in tnodes) ==> n in tnodes
   loop 1 {
@@ -97,14 +107,14 @@ func (*balanceReporterCollapsed).Process returns (err)
 func (*balanceReporterCollapsed).Flush returns (err)
   props C03 C08 C17
   requires @args BalCInv(r)
-  modifies ghost(bufSticky, sinkFailed, sinkPend, prLen, prSink, prArg, prArgs)
+  modifies ghost(bufSticky, sinkFailed, sinkPend, prLen, prSink, prArg, prArgs, jlen)
   ensures @sink [C17] BufStep(r.output)
   ensures @reports-loss [C17] err == nil ==> !bufSticky[r.output] && sinkPend[bufSink[r.output]] == 0
 
 func newBalanceSingleReporter returns (r)
   props C03 C08 C17 C07
   requires @tree TreeInv() && DBIs(db)
-  modifies ghost(bufSink, bufSticky, tnodes, tdepth, tmax, tmapOf)
+  modifies ghost(bufSink, bufSticky, tnodes, tdepth, tmax, tmapOf, jlen)
   ensures @fresh fresh(r) && fresh(r.output) && BalSInv(r) && r.db == db && r.total == 0.0 && r.singleElement == config.SingleElement
   ensures @nodes-kept forall n *shared.TreeNode :: {n in tnodes} old(n in tnodes) ==> n in tnodes
   ensures @sink [C17] bufSink == store(old(bufSink), r.output, payload(config.Output)) && bufSticky == store(old(bufSticky), r.output, false)
@@ -114,7 +124,7 @@ func (*balanceSingleReporter).Process returns (err)
   props C03 C08 C17 C07
   requires @args ln != nil && BalSInv(r)
   modifies *r, heap(shared.TreeNode), maps(string, *shared.TreeNode)
-  modifies ghost(tnodes, tdepth, tmax, tmapOf)
+  modifies ghost(tnodes, tdepth, tmax, tmapOf, jlen)
   ensures @inv BalSInv(r) && err == nil && r.output == old(r.output) && r.root == old(r.root) && r.db == old(r.db) && r.singleElement == old(r.singleElement)
   ensures @nodes-kept forall n *shared.TreeNode :: {n in tnodes} old(n in tnodes) ==> n in tnodes
   // the grand total grows by exactly the day's contribution to the chosen element - the same figures as the
@@ -143,7 +153,7 @@ func (*balanceSingleReporter).Process returns (err)
 func (*balanceSingleReporter).Flush returns (err)
   props C03 C08 C17
   requires @args BalSInv(r)
-  modifies ghost(bufSticky, sinkFailed, sinkPend, prLen, prSink, prArg, prArgs)
+  modifies ghost(bufSticky, sinkFailed, sinkPend, prLen, prSink, prArg, prArgs, jlen)
   ensures @sink [C17] BufStep(r.output)
   ensures @reports-loss [C17] err == nil ==> !bufSticky[r.output] && sinkPend[bufSink[r.output]] == 0
 
@@ -153,7 +163,7 @@ func (*balanceSingleReporter).Flush returns (err)
 func getReporter returns (r)
   props C03 C08 C17
   requires @tree TreeInv() && DBIs(db)
-  modifies ghost(bufSink, bufSticky, tnodes, tdepth, tmax, tmapOf)
+  modifies ghost(bufSink, bufSticky, tnodes, tdepth, tmax, tmapOf, jlen)
   ensures @reporter RepInv(r) && fresh(RepBuf(r)) && RepBookBelow(r, alloc())
   ensures @sink [C17] bufSink == store(old(bufSink), RepBuf(r), payload(config.Output)) && bufSticky == store(old(bufSticky), RepBuf(r), false)
 
@@ -169,7 +179,7 @@ func Balance returns (err)
   props C03 C08 C09 C10 C17
   requires @sink bc.ReporterConfig.Output != nil && !typeis(bc.ReporterConfig.Output, "*bufio.Writer") && !typeis(bc.ReporterConfig.Output, "*encoding/csv.Writer") && TreeInv()
   modifies *
-  modifies ghost(cbLen, cbErr, cbNode, cbStop, cbRet, cbLineNo, cbLine, cbHeader, cbElems, cbNElems, scRd, scPos, privLo, evOf, accKey, accP, accN, accH, bufSink, bufSticky, sinkFailed, sinkPend, prLen, prSink, prArg, prArgs, tnodes, tdepth, tmax, tmapOf)
+  modifies ghost(cbLen, cbErr, cbNode, cbStop, cbRet, cbLineNo, cbLine, cbHeader, cbElems, cbNElems, scRd, scPos, privLo, evOf, accKey, accP, accN, accH, bufSink, bufSticky, sinkFailed, sinkPend, prLen, prSink, prArg, prArgs, tnodes, tdepth, tmax, tmapOf, jlen)
   let out := payload(bc.ReporterConfig.Output)
   let lrd := payload(logStream)
   let drd := payload(dbStream)
